@@ -1,7 +1,7 @@
 """Canonical forms applied to every module's syntax tree before any rule runs.
 
 The rules read call arguments positionally, assignments by their textual operands and
-counters by their augmented assignments.  Three behaviour-preserving spellings of the same
+counters by their augmented assignments.  Five behaviour-preserving spellings of the same
 program are therefore mapped onto the one the rules were written against:
 
   * `x = x + e`                      ->  `x += e`          (plain names and attribute chains)
@@ -10,8 +10,12 @@ program are therefore mapped onto the one the rules were written against:
   * `self.m(p=a, q=b)`               ->  `self.m(a, b)`    when every definition of `m` in the
                                          package agrees on its positional parameter names
 
+  * `t = e` immediately followed by `return t` (t used nowhere else)  ->  `return e`
+  * `L.acquire()` immediately followed by `try: body finally: L.release()`  ->  `with L: body`
+
 None of them changes what the analysed program does; each only undoes a refactoring that the
-invariance sweeps (dv/neutral.py: augassign, tmpvar, kwargs) apply to the whole tree.
+invariance sweeps (dv/neutral.py: augassign, tmpvar, kwargs, retvar, lockidiom) apply to the
+whole tree.
 """
 from __future__ import annotations
 
@@ -106,6 +110,68 @@ def _propagate_temps(fn: ast.FunctionDef):
     do_list(fn.body)
 
 
+def _inline_return_temps(fn: ast.FunctionDef):
+    """`t = <expr>` immediately followed by `return t`, t used nowhere else  ->  `return <expr>`
+    (adjacent statements: evaluation order and exception behaviour are unchanged)."""
+    stores, loads = _name_counts(fn)
+
+    def do_list(stmts: list[ast.stmt]):
+        i = 0
+        while i < len(stmts) - 1:
+            st, nxt = stmts[i], stmts[i + 1]
+            if isinstance(st, ast.Assign) and len(st.targets) == 1 and isinstance(st.targets[0], ast.Name) \
+                    and isinstance(nxt, ast.Return) and isinstance(nxt.value, ast.Name) \
+                    and nxt.value.id == st.targets[0].id \
+                    and stores.get(nxt.value.id) == 1 and loads.get(nxt.value.id) == 1:
+                nxt.value = st.value
+                del stmts[i]
+                continue
+            i += 1
+        _recurse(stmts, do_list)
+    do_list(fn.body)
+
+
+def _recurse(stmts, do_list):
+    for st in stmts:
+        if isinstance(st, (ast.FunctionDef, ast.AsyncFunctionDef, ast.ClassDef)):
+            continue
+        for fld in ("body", "orelse", "finalbody"):
+            sub = getattr(st, fld, None)
+            if isinstance(sub, list) and sub and isinstance(sub[0], ast.stmt):
+                do_list(sub)
+        if isinstance(st, ast.Try):
+            for h in st.handlers:
+                do_list(h.body)
+        if isinstance(st, ast.Match):
+            for c in st.cases:
+                do_list(c.body)
+
+
+def _with_for_acquire(fn: ast.FunctionDef):
+    """`L.acquire()` immediately followed by `try: body finally: L.release()` (no handlers, no
+    else, nothing else in the finally)  ->  `with L: body`."""
+    def do_list(stmts: list[ast.stmt]):
+        i = 0
+        while i < len(stmts) - 1:
+            st, nxt = stmts[i], stmts[i + 1]
+            if isinstance(st, ast.Expr) and isinstance(st.value, ast.Call) and not st.value.args \
+                    and not st.value.keywords and isinstance(st.value.func, ast.Attribute) \
+                    and st.value.func.attr == "acquire" and _pure_chain(st.value.func.value) \
+                    and isinstance(nxt, ast.Try) and not nxt.handlers and not nxt.orelse \
+                    and len(nxt.finalbody) == 1 and isinstance(nxt.finalbody[0], ast.Expr) \
+                    and isinstance(nxt.finalbody[0].value, ast.Call) \
+                    and isinstance(nxt.finalbody[0].value.func, ast.Attribute) \
+                    and nxt.finalbody[0].value.func.attr == "release" \
+                    and _same(nxt.finalbody[0].value.func.value, st.value.func.value):
+                w = ast.With(items=[ast.withitem(context_expr=st.value.func.value, optional_vars=None)],
+                             body=nxt.body)
+                stmts[i:i + 2] = [ast.copy_location(w, st)]
+                continue
+            i += 1
+        _recurse(stmts, do_list)
+    do_list(fn.body)
+
+
 def _functions(tree: ast.Module):
     """Function definitions of a module without walking its (possibly huge) data tables."""
     stack = list(tree.body)
@@ -124,10 +190,10 @@ def normalize_tree(tree: ast.Module):
     """Local canonical forms (no cross-module knowledge needed)."""
     for fn in _functions(tree):
         _Aug().visit(fn)
-        _propagate_temps(fn)
-        for inner in ast.walk(fn):
-            if inner is not fn and isinstance(inner, ast.FunctionDef):
-                _propagate_temps(inner)
+        for f_ in [fn] + [x for x in ast.walk(fn) if x is not fn and isinstance(x, ast.FunctionDef)]:
+            _propagate_temps(f_)
+            _inline_return_temps(f_)
+            _with_for_acquire(f_)
         ast.fix_missing_locations(fn)
 
 
